@@ -8,7 +8,7 @@ hooks = [l.split()[0] for l in hook_commits if 'verif hook' in l]
 
 LEVEL = {
  'C01': ("proof", "Partial: the premises of the convergence argument are proved, its composition is not. Machine-checked for all states, requests and flag sets: (1) the joiner's snapshot — SESSION_STATE's participants, entities (owner, flag, latest pose) and components, VIKJA_STATE's actions and ODAL_STATE's instances enumerate exactly the stored sets (sound and complete, inductive invariants with a ghost position map); (2) for every mutating handler behaviour the exact state change over the whole view and the exact relayed payload and recipients, so that applying the relay to a view equal to the old state gives the new state; (3) applicability: added ids are fresh, deleted/updated things exist. The induction over histories is a pen-and-paper step (DESIGN.md). One step lemma fails and is a known finding (D13: a new subscriber is told nothing about existing components), replayed on the real code by a bounded test.", "§10 C01"),
- 'C03': ("proof", "Partial: the per-request sufficient condition for isolation is proved, the two-run noninterference statement itself is not expressible. Every session-scoped handler's frame obligation confines its writes to objects reached from the connection's own currentSession/currentParticipant (or its module's state, proved to be re-bound to the joined session's entry on every Init); every relay goes through Broadcast/BroadcastTo of that same session (recipient set = its members, proved under C02/C13); every request of a connection that is not joined returns an error, changes nothing and sends nothing; the fields holding a session's maps and generators are written only by the constructors (immutable obligations over every function of models, websocket and modules), so sessions created separately never share them.", "§10 C03"),
+ 'C03': ("proof", "The per-request isolation lemma is proved for every session-scoped entry point (the 17 request handlers, join, leave, disconnect, and the vikja/odal module handlers): for every other session o whose object graph is separate from the requester's (sepSessions: distinct maps, stores, generators, entity and participant objects; lazily allocated maps may both still be nil), everything o's members can observe is unchanged after the request (obsSame: members, entities with owner/flag/pose, components, subscriptions, id counters, module-state table, identity of the maps) and the separation holds again - including against a session the request creates (all its maps are fresh) or joins. In addition: frame obligations confine each handler's writes to objects reached from its own session; a connection that is not joined gets an error, changes nothing and sends nothing; module Init re-binds the module to the joined session's own state; the fields holding a session's maps are written only by the constructors (immutable obligations swept over every function of models, websocket and modules). What is not machine-checked: the induction over histories from this lemma to the two-run noninterference statement (pen-and-paper, DESIGN.md), and dagaz's partition frame.", "§10 C03"),
  'C02': ("proof", "Every accepted behaviour of every mutating handler is proved to emit exactly its declared, ordered event list (one response, one abstract Broadcast with the declared payload, or nothing for refusals) for all states satisfying the representation invariant, all decoded requests and all flag sets; Session.Broadcast's own loop is proved to deliver exactly once to every other member and never to the sender (ghost delivery counters, inductive invariant over the visited-key set).", "§10 C02"),
  'C04': ("proof", "Behaviours of every request handler enumerate the protocol table (complete and disjoint, proved); each is proved to send exactly one response echoing the request id with the named code, to leave the world unchanged when refusing, and to return an error without touching any session when not joined.", "§10 C04"),
  'C05': ("proof", "Foreign delete / pose update behaviours are proved to refuse (or drop) and leave the world unchanged; the owner field is set only at creation and participant ids are strictly increasing (C10).", "§10 C05"),
@@ -26,7 +26,7 @@ LEVEL = {
  'C17': ("proof", "Every relay in every handler behaviour is a conditional event guarded by exactly its own flag; the obligations are proved with the flag set an arbitrary map, i.e. for all 1024 subsets and any unknown names at once.", "§10 C17"),
  'C18': ("proof", "HandleSignedLatency starts a measurement only for a joined participant, 3..50 rounds, non-empty wallet; OnPing behaviours from the property (unknown or already answered id: refused, nothing changes; otherwise exactly one further ping or exactly one response); the response's Signature is hex(Sign(Keccak(Data), key)) of exactly the Data field; Data is the marshaled LatencyData naming client, session UUID, wallet, exactly the issued ping ids; statistics: min <= max, every round within [min,max], last = final round, p95 within.", "§10 C18"),
  'C19': ("proof", "HandleReceipt behaviours (empty field, accepted = exactly one enqueue of the unchanged payload and one response, queue full) are proved; the non-blocking select is modelled as a ready/not-ready choice; VerifyPayload returns nil exactly for well-formed payloads; the receipts worker forwards each dequeued payload exactly once iff it is well formed, unchanged; ForwardToNCS posts it once.", "§10 C19"),
- 'C20': ("proof", "Only the retention and sharing clauses are claimed: dagaz.Module.Init creates the spatial partition once per session and never replaces an existing one, all participants share it through the session's module state, every quad sample is inserted into that partition and each query answers once from it. Index completeness and the geometric primitives are not applicable to this technique (see not_covered).", "§10 C20"),
+ 'C20': ("proof", "Only the retention and sharing clauses are claimed: dagaz.Module.Init creates the spatial partition once per session and never replaces an existing one, all participants share it through the session's module state, every quad sample is inserted into that partition and each query answers once from it. Index completeness is not proved: a bounded stand-in (labelled bounded in the evidence) replays about 450 000 insert sequences over 144 quads on the real grid and checks that every stored plane is registered in every cell its footprint overlaps; the geometric primitives are not applicable to this technique (see not_covered).", "§10 C20"),
 }
 NOTE = "Assumed contracts of dependencies (protobuf decode/encode, errors, sync, time, uuid, fmt), sequential handler-atomic histories (A-seq), trusted clauses and the assumptions listed in the evidence file; soundness of hvc, go/ssa and the SMT solvers."
 
